@@ -256,10 +256,13 @@ func New(config ...Config) fiber.Handler {
 
 		// For external Storage we store raw body separated
 		if cfg.Storage != nil {
-			manager.setRaw(key+"_body", e.body, expiration)
+			// the entry first, the body after it: the body record must never expire before the
+			// entry that refers to it (a storage counts each TTL from the moment of its own Set)
+			body := e.body
 			// avoid body msgp encoding
 			e.body = nil
 			manager.set(key, e, expiration)
+			manager.setRaw(key+"_body", body, expiration)
 			manager.release(e)
 		} else {
 			// Store entry in memory
